@@ -15,7 +15,7 @@ From Tink Require Import Bytes Wrap MldsaScalar MldsaScalarProofs MldsaScalarPro
   MldsaProofs MldsaExamples
   MldsaConvProofs MldsaNormProofs MldsaSampleProofs MldsaSignVerifyProofs MldsaKeyCodecProofs MldsaSignVerifyExamples
   MldsaNttEvalProofs MldsaVerifyIffProofs MldsaCompositeProofs MldsaAcceptExamples
-  MldsaFips MldsaFipsBasics MldsaFipsSampling MldsaFipsEncodings MldsaFipsNtt MldsaFipsTop.
+  MldsaFips MldsaFipsBasics MldsaFipsSampling MldsaFipsEncodings MldsaFipsNtt MldsaFipsTop MldsaFipsMono.
 Import ListNotations.
 Local Open Scope Z_scope.
 
@@ -944,3 +944,73 @@ Theorem C10_fips_keygen : forall (H G : bytes -> nat -> bytes) P seed,
   FIPS.KeyGen_internal H G (fips_of P) 672 1536 seed.
 Proof. intros H G P seed HH HG HP. exact (KeyGen_internal_eq H G HH HG P HP seed). Qed.
 Print Assumptions C10_fips_keygen.
+
+(* ML-DSA.Sign_internal (Algorithm 7), its external-mu entry, ML-DSA.Sign
+   (Algorithm 2) with the randomness rnd as an input (32 zero bytes =
+   deterministic variant; anything else = hedged), and the Tink signer of a
+   key without output prefix: for every encoded secret key the model accepts
+   (sk is what skDecode returns for it), every message, context, rnd and
+   every bound on the number of rounds of the rejection loop, the model
+   returns exactly what the standard's algorithm returns — the same signature
+   BYTES, or None when the loop does not end within the bound or ExpandA /
+   SampleInBall exceed the Squeeze bounds 672 / 1024.  The proof follows every
+   round: ExpandMask, w, w1, c~, c, z, r0, the two norm checks, the hint, its
+   weight, and the encoding of z mod+- q. *)
+Theorem C10_fips_sign : forall (H G : bytes -> nat -> bytes) P,
+  xof_laws H -> xof_laws G -> P = MLDSA44 \/ P = MLDSA65 \/ P = MLDSA87 ->
+  (forall skb sk rounds mu rnd, skDecode P skb = Some sk ->
+     signInternalWithMu G H P rounds sk mu rnd = FIPS.Sign_mu H G (fips_of P) 672 1024 rounds skb mu rnd) /\
+  (forall skb sk rounds Mp rnd, skDecode P skb = Some sk ->
+     signInternal G H P rounds sk Mp rnd = FIPS.Sign_internal H G (fips_of P) 672 1024 rounds skb Mp rnd) /\
+  (forall skb sk rounds M ctx rnd, skDecode P skb = Some sk ->
+     sign G H P rounds sk M ctx rnd = FIPS.Sign H G (fips_of P) 672 1024 rounds skb M ctx rnd) /\
+  (forall skb rounds data rnd, length skb = secretKeyLength P ->
+     tinkSign G H P rounds [] skb data rnd =
+     FIPS.Sign_internal H G (fips_of P) 672 1024 rounds skb (FIPS.format_message data []) rnd) /\
+  (forall Ah s1h s2h t0h mu rhopp rounds kappa,
+     cmat (p_k P) (p_l P) Ah -> cvec (p_l P) s1h -> cvec (p_k P) s2h -> cvec (p_k P) t0h ->
+     signLoop H P rounds Ah s1h s2h t0h mu rhopp kappa =
+     FIPS.Sign_loop H (fips_of P) 1024 rounds Ah s1h s2h t0h mu rhopp kappa).
+Proof.
+  intros H G P HH HG HP.
+  split; [intros skb sk rounds mu rnd D; exact (proj1 (Sign_mu_eq H G HH HG P HP skb sk rounds mu rnd D))|].
+  split; [exact (Sign_internal_eq H G HH HG P HP)|].
+  split; [exact (Sign_eq H G HH HG P HP)|].
+  split; [exact (tinkSign_eq H G HH HG P HP)|].
+  intros Ah s1h s2h t0h mu rhopp rounds kappa HA H1 H2 H3.
+  exact (Sign_loop_eq H HH P HP Ah s1h s2h t0h mu rhopp HA H1 H2 H3 rounds kappa).
+Qed.
+Print Assumptions C10_fips_sign.
+
+(* "given enough stream", exactly: the Squeeze bounds only cut the unbounded
+   rejection loops of Algorithms 29-31 off; a result obtained within a bound is
+   the result for every larger bound.  So the equalities above say: the model
+   computes what the standard's unbounded algorithms compute whenever those
+   need at most 672 / 1536 / 1024 Squeeze calls, and reports out-of-stream
+   otherwise. *)
+Theorem C10_fips_bounds_monotone : forall (X : bytes -> nat -> bytes) P b b', (b <= b')%nat ->
+  (forall rho p, FIPS.RejNTTPoly X b rho = Some p -> FIPS.RejNTTPoly X b' rho = Some p) /\
+  (forall rho p, FIPS.RejBoundedPoly X P b rho = Some p -> FIPS.RejBoundedPoly X P b' rho = Some p) /\
+  (forall rho c, FIPS.SampleInBall X P b rho = Some c -> FIPS.SampleInBall X P b' rho = Some c).
+Proof.
+  intros X P b b' Hb.
+  split; [intros rho p; exact (RejNTTPoly_mono X b b' rho p Hb)|].
+  split; [intros rho p; exact (RejBoundedPoly_mono X P b b' rho p Hb) | intros rho c; exact (SampleInBall_mono X P b b' rho c Hb)].
+Qed.
+Print Assumptions C10_fips_bounds_monotone.
+
+(* the XOF laws are satisfiable (a toy XOF whose output for a message is a
+   prefix of one stream per message), and with it the standard's
+   KeyGen_internal, Sign and Verify return values, so the equalities are not
+   about None = None only: key pair of 1312 / 2560 bytes, a 2420-byte
+   signature, accepted; a changed c~ byte rejected (evaluated on the model and
+   transported by the equality theorems) *)
+Example C10_fips_inhabited :
+  xof_laws lx_shake256 /\ xof_laws ex_shake128 /\
+  FIPS.KeyGen_internal lx_shake256 ex_shake128 FIPS.ML_DSA_44 672 1536 [] = Some (lx_pkb, lx_skb) /\
+  length lx_pkb = 1312%nat /\ length lx_skb = 2560%nat /\
+  FIPS.Sign lx_shake256 ex_shake128 FIPS.ML_DSA_44 672 1024 1 lx_skb [] [] [] = Some (Some lx_sig) /\
+  length lx_sig = 2420%nat /\
+  FIPS.Verify lx_shake256 ex_shake128 FIPS.ML_DSA_44 672 1024 lx_pkb [] lx_sig [] = Some true /\
+  FIPS.Verify lx_shake256 ex_shake128 FIPS.ML_DSA_44 672 1024 lx_pkb [] (1%N :: tl lx_sig) [] = Some false.
+Proof. exact ex_fips_inhabited. Qed.
